@@ -68,6 +68,20 @@ Proof.
   reflexivity.
 Qed.
 
+Lemma if_match_sep {A} (h : bool) (o : option N) (F : N -> A) (B : A) :
+  (if h then match o with Some y => F y | None => B end else B) =
+  match (if h then o else None) with Some y => F y | None => B end.
+Proof. destruct h; reflexivity. Qed.
+
+Lemma body_ok_u202 html y r : body_ok html ([92; 117; 50; 48; 50; hexdig (N.land y 15)] ++ r) = body_ok html r.
+Proof.
+  cbn [app body_ok]. change (92 =? 92) with true. cbn iota.
+  change (simple_esc 117) with false. change (117 =? 117) with true. cbn iota.
+  change (is_hex 50) with true. change (is_hex 48) with true.
+  rewrite (hexdig_is_hex (N.land y 15)) by (change 15 with (N.ones 4); rewrite N.land_ones; apply N.mod_lt; discriminate).
+  reflexivity.
+Qed.
+
 Section Variant.
   Variable need : list N.
   Variable html normalize : bool.
@@ -169,7 +183,9 @@ Section Variant.
     { rewrite (escape_ok c e _ Hc Ee). apply IH. exact Hr. }
     pose proof (flagged_noesc c Hc T Ee) as Hhigh.
     destruct normalize.
-    2:{ rewrite body_ok_raw by (apply high_raw; exact Hhigh). apply IH. exact Hr. }
+    2:{ rewrite if_match_sep. destruct (if html then sep3 (c :: r) else None) as [y|].
+        - rewrite body_ok_u202. apply IH. apply SwarP.ok_skipn. exact Hs.
+        - rewrite body_ok_raw by (apply high_raw; exact Hhigh). apply IH. exact Hr. }
     destruct (decode_rune (c :: r)) as [st size] eqn:D.
     destruct st.
     - rewrite body_ok_raws by (apply (decode_rune_valid_high (c :: r) size Hs); [cbn; lia|exact D]).
